@@ -89,7 +89,7 @@ PROPS = {
     },
     "C12": {
         "module": "FBV.Props.C12",
-        "theorems": ["FBV.C12.no_call_when_frame_buffered", "FBV.C12.no_call_when_rejected", "FBV.C12.no_call_when_full", "FBV.C12.offers_ok",
+        "theorems": ["FBV.C12.no_call_when_frame_buffered", "FBV.C12.no_call_when_rejected", "FBV.C12.no_call_when_full", "FBV.C12.offers_ok", "FBV.C12.call_discipline", "FBV.C12.trace_log",
                      "FBV.C12.copy_once_from_spec", "FBV.pollLoop_outcome"],
         "jobs": (lambda tier: [{"which": "sync", "profile": "dev", "args": ["rf"], "oc": True}, {"which": "sync", "profile": "dev", "args": ["rfe"], "oc": True},
                                {"which": "sync", "profile": "dev", "args": ["t1"], "oc": True}]),
